@@ -1,109 +1,156 @@
-import ScVerif.C05.Lemmas
+import ScVerif.C05.Nested
+import ScVerif.C05.Legacy
 import ScVerif.C06.Lemmas
 /-!
 # C05 — writes respect update, writable-field and reset masks
 
 Model: `ScVerif/C05/Update.lean` (`FieldUpdater.Validate`, `FieldUpdater.Merge`, `pruneEmpty`,
-`WriteRequest.fieldUpdater`, `Value.set`) over the library models of `ScVerif/C05/Lib.lean`.
-`merge … = none` is a panic inside fmutils; a mask is `Option (List Path)`, `none` being Go's nil.
-
-The unchanged code violates several clauses of the property (see known_findings/C05.json); for each
-the full-strength statement is in the doc comment, a `_fails` theorem gives the witness on the
-model (the same input fails on the real code, replayed by the check) and a `_partial` theorem states
-what does hold, for all inputs, with its extra hypothesis explicit.
+`WriteRequest.fieldUpdater`, `Value.set`) over the library models of `ScVerif/C05/Lib.lean`, following
+/repo after the fixes 4d3ae38 (per-path writable test), 37d17a7 (`pruneEmpty` prunes inside a message
+the written message lacks), 40c1599 (`nestedMask`: nested paths dropped) and 70b9b73 (reset applied
+when nothing is writable).  `merge … = none` is a panic inside fmutils; a mask is
+`Option (List Path)`, `none` being Go's nil.  The defects those commits repaired are kept as
+`…_legacy_…` witnesses over the old definitions (`ScVerif/C05/Legacy.lean`).
 -/
 namespace ScVerif.C05
-open ScVerif.C06 (GoodPath validPath_iff)
+open ScVerif.C06 (GoodPath validPath_iff NoEmptyName goodPath_segments goodPath_ne_nil)
 
 /-- Field `k` of a message of type `ty` can not be displaced by assigning another field: it is not
 a member of any oneof that has another member. -/
 def NotDisplaced (S : Schema) (ty : Nat) (k : Name) : Prop := ∀ n, k ∉ S.sibs ty n
 
 /-- **C05_empty_mask** (full strength).  An empty non-nil update mask changes nothing in the stored
-message, whatever the other masks and messages are. -/
+message, whatever the other masks (reset mask included) and messages are. -/
 theorem C05_empty_mask (S : Schema) (ty : Nat) (u : Updater) (dst src : Fields) (r : Merged)
     (hM : u.update = some []) (h : merge S ty u dst src = some r) : r.dst = dst := by
   unfold merge at h
   by_cases hW : u.writable = some []
-  · simp [hW] at h; rw [← h]
+  · simp [hW, hM] at h; rw [← h]
   · simp only [hW, if_false, hM] at h
     split at h
     · cases h
     · simp at h; rw [← h]
 
-/-- **C05_rejects_unknown** (full strength for the unknown-path clause).  An update mask with a
-path that is not well-formed for the message type — unknown segment, empty path, continuation
-through a scalar, map or repeated field — is rejected with `InvalidArgument`, whatever the
-writable and reset masks are.  (`Value.set` / `Collection.Update` return before touching the
-store: `valueSet` yields `.err`.) -/
-theorem C05_rejects_unknown (S : Schema) (ty : Nat) (u : Updater) (M : List Path)
-    (hM : u.update = some M) (h : ∃ p ∈ M, ¬ GoodPath S ty p) :
+/-- **C05_rejects** (full strength).  An update mask with a path that is not well-formed for the
+message type (unknown segment, empty path, continuation through a scalar, map or repeated field),
+or — when writable fields are configured — with a path that is neither a writable path nor below
+one (a strict parent of writable paths names fields outside them and counts), is rejected with
+`InvalidArgument`; `Value.set` / `Collection.Update` then return before touching the store. -/
+theorem C05_rejects (S : Schema) (ty : Nat) (u : Updater) (M : List Path)
+    (hM : u.update = some M)
+    (h : (∃ p ∈ M, ¬ GoodPath S ty p) ∨ (∃ W, u.writable = some W ∧ ∃ p ∈ M, ¬ InsideWritable W p)) :
     validate S ty u = .invalidArgument ∧
       ∀ stored src, valueSet S ty u stored src = .err .invalidArgument := by
-  have hv : isValid S ty M = false := by
-    obtain ⟨p, hp, hbad⟩ := h
-    cases hh : isValid S ty M with
-    | false => rfl
-    | true =>
-      have := (List.all_eq_true.mp hh) p hp
-      exact absurd ((validPath_iff S ty p).mp this) hbad
-  have : validate S ty u = .invalidArgument := by simp [validate, hM, hv]
+  have : validate S ty u = .invalidArgument := by
+    by_cases hv : isValid S ty M = true
+    · rcases h with ⟨p, hp, hbad⟩ | ⟨W, hW, p, hp, hout⟩
+      · exact absurd ((validPath_iff S ty p).mp (List.all_eq_true.mp hv p hp)) hbad
+      · have : M.all (isWritablePath W) = false := by
+          cases hh : M.all (isWritablePath W) with
+          | false => rfl
+          | true => exact absurd ((isWritablePath_iff W p).mp (List.all_eq_true.mp hh p hp)) hout
+        simp [validate, hM, hv, hW, this]
+    · simp [validate, hM, hv]
   exact ⟨this, fun stored src => by simp [valueSet, this]⟩
 
-/-- A schema for the witnesses: type 0 = {f : message 1, g : scalar}, type 1 = {c, d : scalar}. -/
-def wSchema : Schema :=
-  [[⟨"f", .message 1, 0⟩, ⟨"g", .scalar, 0⟩], [⟨"c", .scalar, 0⟩, ⟨"d", .scalar, 0⟩]]
+/-- **C05_accepts.**  Conversely `Validate` accepts exactly the well-formed update masks inside the
+writable fields with a well-formed reset mask — duplicates and overlapping paths included (they were
+rejected as "read-only" before 4d3ae38). -/
+theorem C05_accepts (S : Schema) (ty : Nat) (u : Updater) :
+    validate S ty u = .ok ↔
+      (∀ M, u.update = some M → (∀ p ∈ M, GoodPath S ty p) ∧
+          ∀ W, u.writable = some W → ∀ p ∈ M, InsideWritable W p) ∧
+      (∀ R, u.reset = some R → ∀ p ∈ R, GoodPath S ty p) := by
+  have hreset : validateReset S ty u = .ok ↔ ∀ R, u.reset = some R → ∀ p ∈ R, GoodPath S ty p := by
+    unfold validateReset
+    cases hr : u.reset with
+    | none => simp
+    | some R =>
+      by_cases hv : isValid S ty R = true
+      · simp only [hv, if_true, Option.some.injEq, forall_eq', true_iff]
+        intro p hp; exact (validPath_iff S ty p).mp (List.all_eq_true.mp hv p hp)
+      · simp only [hv, Bool.false_eq_true, if_false, Option.some.injEq, forall_eq', reduceCtorEq, false_iff]
+        intro hall
+        exact hv (List.all_eq_true.mpr (fun p hp => (validPath_iff S ty p).mpr (hall p hp)))
+  unfold validate
+  cases hm : u.update with
+  | none => simp [hreset]
+  | some M =>
+    by_cases hv : isValid S ty M = true
+    · have hgood : ∀ p ∈ M, GoodPath S ty p := fun p hp =>
+        (validPath_iff S ty p).mp (List.all_eq_true.mp hv p hp)
+      cases hw : u.writable with
+      | none => simp [hv, hreset]; exact fun _ => hgood
+      | some W =>
+        by_cases hin : M.all (isWritablePath W) = true
+        · have hins : ∀ p ∈ M, InsideWritable W p := fun p hp =>
+            (isWritablePath_iff W p).mp (List.all_eq_true.mp hin p hp)
+          simp [hv, hin, hreset]; exact fun _ => ⟨hgood, hins⟩
+        · simp only [hv, hin, Bool.not_true, Bool.false_eq_true, if_false, Bool.not_false, if_true,
+            reduceCtorEq, Option.some.injEq, forall_eq', false_iff]
+          rintro ⟨⟨_, hins⟩, _⟩
+          exact hin (List.all_eq_true.mpr (fun p hp => (isWritablePath_iff W p).mpr (hins p hp)))
+    · simp only [hv, Bool.not_false, if_true, reduceCtorEq, Option.some.injEq, forall_eq', false_iff]
+      rintro ⟨⟨hgood, _⟩, _⟩
+      exact hv (List.all_eq_true.mpr (fun p hp => (validPath_iff S ty p).mpr (hgood p hp)))
 
-/-- stored `{f={c=1,d=2}, g=7}` -/
-def wStored : Fields :=
-  .cons "f" (.msg (.cons "c" (.sc "i1") (.cons "d" (.sc "i2") .nil))) (.cons "g" (.sc "i7") .nil)
+/-- **C05_reset** (full strength).  After a write whose update mask is not the empty mask (which, by
+`C05_empty_mask`, changes nothing), every path of the reset mask — and everything below it — is absent
+from the result: at any depth, for parent+child and duplicate reset paths, and also when nothing is
+writable.  (Reset paths non-empty without empty segments, as every validated mask is.) -/
+theorem C05_reset (S : Schema) (ty : Nat) (u : Updater) (dst src : Fields) (r : Merged)
+    (R : List Path) (hM : u.update ≠ some [])
+    (hR : u.reset = some R) (hRc : Clean R) (hRn : NonNil R)
+    (h : merge S ty u dst src = some r) :
+    ∀ q ∈ R, ∀ p, q <+: p → r.dst.getPath p = none := by
+  intro q hq p hpre
+  have key : ∀ d d', resetDst u d = some d' → d'.getPath p = none := by
+    intro d d' hd
+    unfold resetDst at hd
+    rw [hR] at hd
+    exact getPath_reset_cleared hRc hRn hq hpre d d' hd
+  unfold merge at h
+  by_cases hW : u.writable = some []
+  · simp only [hW, if_true, hM, if_false] at h
+    cases hd : resetDst u dst with
+    | none => rw [hd] at h; cases h
+    | some d' => rw [hd] at h; simp at h; rw [← h]; exact key _ _ hd
+  · simp only [hW, if_false] at h
+    split at h
+    · cases h
+    · split at h
+      · cases hu : u.update with
+        | none => simp [hu] at *
+        | some M =>
+          cases M with
+          | nil => exact absurd hu hM
+          | cons _ _ => simp [hu] at *
+      · cases h
+      · split at h
+        · cases h
+        · split at h
+          · cases h
+          next d3 _ =>
+            cases hd : resetDst u d3 with
+            | none => rw [hd] at h; cases h
+            | some d' => rw [hd] at h; simp at h; rw [← h]; exact key _ _ hd
 
 /--
-Full-strength statement (false): an update path outside the writable fields ⇒ `InvalidArgument`.
+Full-strength statement: `validate = ok → merge = some r → ∀ leaf path p ∉ ⟦M⟧∩⟦W⟧, p ∉ ⟦R⟧ →
+r.dst.getPath p = dst.getPath p`.  What is proved for all inputs is its instance for every path whose
+*top-level* field no update / reset path starts with (below); for a path under a field that update
+paths pass through, the per-pass facts at depth are proved for `fmutils.Prune`
+(`getPath_pruneMsg_misses`, used by the reset and nil-mask passes) but not yet for the composition
+with `proto.Merge` and `pruneEmpty` — that part of the frame clause rests on the K1/K2 ties and the
+path-by-path monitor (which no longer has any exemption there since 37d17a7).
 
-**Witness (C05_rejects_fails).**  Writable `{f.c, f.d}`, update mask `{f, g}`: `g` is related to no
-writable path, yet `Validate` accepts (the intersection `{f.c, f.d}` has as many paths as the update
-mask), and the write then clears the stored `g`. -/
-theorem C05_rejects_fails :
-    ∃ (u : Updater) (src : Fields),
-      u.writable = some [["f", "c"], ["f", "d"]] ∧ u.update = some [["f"], ["g"]] ∧
-      validate wSchema 0 u = .ok ∧
-      (merge wSchema 0 u wStored src).map (·.dst.get "g") = some none :=
-  ⟨⟨some [["f", "c"], ["f", "d"]], some [["f"], ["g"]], none⟩, .cons "g" (.sc "i9") .nil,
-   rfl, rfl, by decide, by decide⟩
-
-/--
-Full-strength statement (false on this tree):
-  `validate = ok → merge = some r → ∀ leaf path p ∉ ⟦M⟧∩⟦W⟧, p ∉ ⟦R⟧ → r.dst.getPath p = dst.getPath p`.
-
-**Witness (C05_frame_fails_nested).**  Update mask `{f.c}`, everything writable, written message
-without `f`: the whole of `f` is cleared, so `f.d` — outside the mask — is lost. -/
-theorem C05_frame_fails_nested :
-    ∃ (u : Updater) (src : Fields) (r : Merged),
-      u = ⟨none, some [["f", "c"]], none⟩ ∧ validate wSchema 0 u = .ok ∧
-      merge wSchema 0 u wStored src = some r ∧
-      wStored.getPath ["f", "d"] = some (.sc "i2") ∧ r.dst.getPath ["f", "d"] = none :=
-  ⟨_, .cons "g" (.sc "i9") .nil, ⟨.cons "g" (.sc "i7") .nil, .nil⟩, rfl, by decide, by decide, by decide, by decide⟩
-
-/-- **Witness (C05_frame_fails_wider).**  Update mask `{f}`, writable `{f.c}`, written message
-without `f`: accepted, and the whole of `f` is cleared including `f.d`, which is not writable. -/
-theorem C05_frame_fails_wider :
-    ∃ (u : Updater) (src : Fields) (r : Merged),
-      u = ⟨some [["f", "c"]], some [["f"]], none⟩ ∧ validate wSchema 0 u = .ok ∧
-      merge wSchema 0 u wStored src = some r ∧
-      wStored.getPath ["f", "d"] = some (.sc "i2") ∧ r.dst.getPath ["f", "d"] = none :=
-  ⟨_, .cons "g" (.sc "i9") .nil, ⟨.cons "g" (.sc "i7") .nil, .nil⟩, rfl, by decide, by decide, by decide, by decide⟩
-
-/-- **C05_frame_partial.**  For every schema, message type, stored and written message, writable,
-reset and non-empty update mask (paths without empty segments): a field `k` that is the first
+**C05_frame_toplevel.**  For every schema, message type, stored and written message, writable, reset
+and non-empty update mask (paths non-empty, without empty segments): a field `k` that is the first
 segment of no update path and of no reset path, and that no oneof assignment can displace, is in
-the result exactly what it was — together with everything below it.  (The hypothesis is on first
-segments: it is what the frame clause says for every path whose top-level field the masks do not
-mention, in particular for all flat masks; the two witnesses above are about paths *below* a
-mentioned field.) -/
-theorem C05_frame_partial (S : Schema) (ty : Nat) (u : Updater) (dst src : Fields) (r : Merged)
+the result exactly what it was — together with everything below it. -/
+theorem C05_frame_toplevel (S : Schema) (ty : Nat) (u : Updater) (dst src : Fields) (r : Merged)
     (m : Path) (ms : List Path) (k : Name)
-    (hM : u.update = some (m :: ms)) (hMc : Clean (m :: ms)) (hm : m ≠ [])
+    (hM : u.update = some (m :: ms)) (hMc : Clean (m :: ms)) (hMn : NonNil (m :: ms))
     (hk : NoHead k (m :: ms))
     (hR : ∀ R, u.reset = some R → Clean R ∧ NoHead k R)
     (hd : NotDisplaced S ty k)
@@ -114,16 +161,28 @@ theorem C05_frame_partial (S : Schema) (ty : Nat) (u : Updater) (dst src : Field
     cases p with
     | nil => simpa [Fields.getPath] using hget
     | cons k' rest => simp [Fields.getPath, hget]
+  have hreset : ∀ d d', resetDst u d = some d' → d'.get k = d.get k := by
+    intro d d' hd'
+    unfold resetDst at hd'
+    cases hr : u.reset with
+    | none => rw [hr] at hd'; simp at hd'; rw [hd']
+    | some R =>
+      rw [hr] at hd'
+      obtain ⟨hRc, hRk⟩ := hR R hr
+      exact get_pruneMsg_other _ k (find_nestedMask_noHead hRc hRk) d d' hd'
   unfold merge at h
   by_cases hW : u.writable = some []
-  · simp [hW] at h; rw [← h]
+  · simp only [hW, if_true, hM, reduceCtorEq, if_false] at h
+    cases hd' : resetDst u dst with
+    | none => rw [hd'] at h; cases h
+    | some d' => rw [hd'] at h; simp at h; rw [← h]; exact hreset _ _ hd'
   · simp only [hW, if_false, hM] at h
     split at h
     · cases h
     next src1 _ =>
       simp only [Option.getD_some] at h
-      have hne := fromPaths_not_empty hMc hm
-      have hfind := find_fromPaths_noHead hMc hk
+      have hne := nestedMask_not_empty hMc hMn (by simp)
+      have hfind := find_nestedMask_noHead hMc hk
       split at h
       · cases h
       next src2 hf2 =>
@@ -131,36 +190,37 @@ theorem C05_frame_partial (S : Schema) (ty : Nat) (u : Updater) (dst src : Field
           unfold filterMsg at hf2
           simp only [hne, Bool.false_eq_true, if_false] at hf2
           exact get_filterFields_none _ k hfind src1 src2 hf2
-        have h3 : (pruneEmpty (Mask.fromPaths (m :: ms)) src2 (mergeFields S ty dst src2)).get k = dst.get k := by
-          rw [get_pruneEmpty_other _ _ k hfind, get_mergeFields_other S ty k hd src2 dst hsrc2]
         split at h
-        · simp only [Option.some.injEq] at h
-          rw [← h]; exact h3
-        next R hr =>
-          obtain ⟨hRc, hRk⟩ := hR R hr
-          cases hp : pruneMsg (Mask.fromPaths R) (pruneEmpty (Mask.fromPaths (m :: ms)) src2 (mergeFields S ty dst src2)) with
-          | none => rw [hp] at h; cases h
-          | some d4 =>
-            rw [hp] at h
-            simp only [Option.map_some, Option.some.injEq] at h
-            rw [← h]
-            simp only
-            rw [get_pruneMsg_other _ k (find_fromPaths_noHead hRc hRk) _ _ hp]
-            exact h3
+        · cases h
+        next d3 hd3 =>
+          have h3 : d3.get k = dst.get k := by
+            rw [get_pruneEmpty_other _ _ k hfind _ _ hd3, get_mergeFields_other S ty k hd src2 dst hsrc2]
+          cases hd' : resetDst u d3 with
+          | none => rw [hd'] at h; cases h
+          | some d' => rw [hd'] at h; simp at h; rw [← h]; rw [hreset _ _ hd']; exact h3
 
-/-- **C05_frame_partial_nil_mask.**  The same frame statement for a nil update mask ("all writable
-fields"): a field that is the first segment of no writable path and of no reset path, and that no
-oneof assignment can displace, is in the result exactly what it was. -/
-theorem C05_frame_partial_nil_mask (S : Schema) (ty : Nat) (u : Updater) (dst src : Fields) (r : Merged)
+/-- **C05_frame_toplevel_nil_mask.**  The same for a nil update mask ("all writable fields"): a field
+that is the first segment of no writable path and of no reset path, and that no oneof assignment
+can displace, is in the result exactly what it was. -/
+theorem C05_frame_toplevel_nil_mask (S : Schema) (ty : Nat) (u : Updater) (dst src : Fields) (r : Merged)
     (w : Path) (ws : List Path) (k : Name)
-    (hM : u.update = none) (hW : u.writable = some (w :: ws)) (hWc : Clean (w :: ws)) (hw : w ≠ [])
+    (hM : u.update = none) (hW : u.writable = some (w :: ws)) (hWc : Clean (w :: ws)) (hWn : NonNil (w :: ws))
     (hk : NoHead k (w :: ws))
     (hR : ∀ R, u.reset = some R → Clean R ∧ NoHead k R)
     (hd : NotDisplaced S ty k)
     (h : merge S ty u dst src = some r) :
     r.dst.get k = dst.get k := by
-  have hne := fromPaths_not_empty hWc hw
-  have hfind := find_fromPaths_noHead hWc hk
+  have hne := nestedMask_not_empty hWc hWn (by simp)
+  have hfind := find_nestedMask_noHead hWc hk
+  have hreset : ∀ d d', resetDst u d = some d' → d'.get k = d.get k := by
+    intro d d' hd'
+    unfold resetDst at hd'
+    cases hr : u.reset with
+    | none => rw [hr] at hd'; simp at hd'; rw [hd']
+    | some R =>
+      rw [hr] at hd'
+      obtain ⟨hRc, hRk⟩ := hR R hr
+      exact get_pruneMsg_other _ k (find_nestedMask_noHead hRc hRk) d d' hd'
   unfold merge at h
   simp only [hW, hM] at h
   rw [if_neg (by simp)] at h
@@ -172,122 +232,54 @@ theorem C05_frame_partial_nil_mask (S : Schema) (ty : Nat) (u : Updater) (dst sr
       unfold filterMsg at hf1
       simp only [hne, Bool.false_eq_true, if_false] at hf1
       exact get_filterFields_none _ k hfind src src1 hf1
-    cases hd1 : pruneMsg (Mask.fromPaths (w :: ws)) dst with
+    cases hd1 : pruneMsg (nestedMask (w :: ws)) dst with
     | none => rw [hd1] at h; simp at h
     | some dst1 =>
       rw [hd1] at h
       have hdst1 : dst1.get k = dst.get k := get_pruneMsg_other _ k hfind dst dst1 hd1
       simp only [Option.getD_none] at h
-      have hnil : Mask.fromPaths [] = Mask.nil := rfl
+      have hnil : nestedMask [] = Mask.nil := rfl
       rw [hnil] at h
       have hfm : filterMsg Mask.nil src1 = some src1 := by simp [filterMsg, Mask.isEmpty]
       rw [hfm] at h
       simp only at h
-      have h3 : (pruneEmpty Mask.nil src1 (mergeFields S ty dst1 src1)).get k = dst.get k := by
-        rw [get_pruneEmpty_other _ _ k rfl, get_mergeFields_other S ty k hd src1 dst1 hsrc1, hdst1]
       split at h
-      · simp only [Option.some.injEq] at h
-        rw [← h]; exact h3
-      next R hr =>
-        obtain ⟨hRc, hRk⟩ := hR R hr
-        cases hp : pruneMsg (Mask.fromPaths R) (pruneEmpty Mask.nil src1 (mergeFields S ty dst1 src1)) with
-        | none => rw [hp] at h; cases h
-        | some d4 =>
-          rw [hp] at h
-          simp only [Option.map_some, Option.some.injEq] at h
-          rw [← h]
-          simp only
-          rw [get_pruneMsg_other _ k (find_fromPaths_noHead hRc hRk) _ _ hp]
-          exact h3
-/--
-Full-strength statement (false): a scalar path inside update∩writable ends up equal to the written
-message's value.
-
-**Witness (C05_scalar_in_fails).**  Update mask `{f, f.c}` (valid; as a path set equal to `{f}`):
-`f.d` is inside the mask and written as 6, but keeps its stored value 2 — the nested mask built by
-fmutils keeps only the child `c` under `f`. -/
-theorem C05_scalar_in_fails :
-    ∃ (u : Updater) (src : Fields) (r : Merged),
-      u = ⟨none, some [["f"], ["f", "c"]], none⟩ ∧ validate wSchema 0 u = .ok ∧
-      src.getPath ["f", "d"] = some (.sc "i6") ∧
-      merge wSchema 0 u wStored src = some r ∧ r.dst.getPath ["f", "d"] = some (.sc "i2") :=
-  ⟨_, .cons "f" (.msg (.cons "c" (.sc "i5") (.cons "d" (.sc "i6") .nil))) .nil,
-   ⟨.cons "f" (.msg (.cons "c" (.sc "i5") (.cons "d" (.sc "i2") .nil))) (.cons "g" (.sc "i7") .nil),
-    .cons "f" (.msg (.cons "c" (.sc "i5") .nil)) .nil⟩,
-   rfl, by decide, by decide, by decide, by decide⟩
-
-/--
-Full-strength statement (false): every reset-mask path is absent from the result.
-
-**Witness (C05_reset_fails_nothing_writable).**  With a non-nil empty writable mask `Merge`
-returns before the reset mask is applied. -/
-theorem C05_reset_fails_nothing_writable :
-    ∃ (u : Updater) (r : Merged),
-      u = ⟨some [], none, some [["g"]]⟩ ∧ validate wSchema 0 u = .ok ∧
-      merge wSchema 0 u wStored .nil = some r ∧ r.dst.get "g" = some (.sc "i7") :=
-  ⟨_, ⟨wStored, .nil⟩, rfl, by decide, by decide, by decide⟩
-
-/-- **C05_reset_partial.**  Whenever something is writable and the update mask is not the empty
-mask (the two early returns of `Merge`): a field named by a reset path, below which no reset path
-continues, is absent from the result — for every schema, message pair and combination of the other
-masks.  (`C05_reset_fails_nothing_writable` is the witness for the excluded early return.) -/
-theorem C05_reset_partial (S : Schema) (ty : Nat) (u : Updater) (dst src : Fields) (r : Merged)
-    (R : List Path) (k : Name)
-    (hW : u.writable ≠ some []) (hM : u.update ≠ some [])
-    (hR : u.reset = some R) (hRc : Clean R) (hk : [k] ∈ R) (hall : ∀ t ∈ tails k R, t = [])
-    (h : merge S ty u dst src = some r) : r.dst.get k = none := by
-  have hne : tails k R ≠ [] := by
-    intro e; have := mem_tails.mpr hk; rw [e] at this; exact absurd this (List.not_mem_nil)
-  have hfind : (Mask.fromPaths R).find k = some (Mask.insertAll .nil (tails k R)) := by
-    rw [Mask.find_fromPaths hRc]
-    cases ht : tails k R with
-    | nil => exact absurd ht hne
-    | cons _ _ => rfl
-  have hsub : (Mask.insertAll .nil (tails k R)).isEmpty = true := (Mask.insertAll_nil_isEmpty _).mpr hall
-  have hmask : (Mask.fromPaths R).isEmpty = false := by
-    cases hm : Mask.fromPaths R with
-    | nil => rw [hm] at hfind; simp [Mask.find] at hfind
-    | cons _ _ _ => rfl
-  have key : ∀ d d', pruneMsg (Mask.fromPaths R) d = some d' → d'.get k = none := by
-    intro d d' hp
-    unfold pruneMsg at hp
-    simp only [hmask, Bool.false_eq_true, if_false] at hp
-    exact get_pruneFields_cleared _ k _ hfind hsub d d' hp
-  unfold merge at h
-  simp only [hW, if_false, hR] at h
-  split at h
-  · cases h
-  · split at h
-    · cases hu : u.update with
-      | none => simp [hu] at *
-      | some M =>
-        cases M with
-        | nil => exact absurd hu hM
-        | cons _ _ => simp [hu] at *
-    · cases h
-    · split at h
       · cases h
-      · cases hp : pruneMsg (Mask.fromPaths R) _ with
-        | none => rw [hp] at h; cases h
-        | some d4 =>
-          rw [hp] at h
-          simp only [Option.map_some, Option.some.injEq] at h
-          rw [← h]
-          exact key _ _ hp
+      next d3 hd3 =>
+        have h3 : d3.get k = dst.get k := by
+          rw [get_pruneEmpty_other _ _ k rfl _ _ hd3, get_mergeFields_other S ty k hd src1 dst1 hsrc1, hdst1]
+        cases hd' : resetDst u d3 with
+        | none => rw [hd'] at h; cases h
+        | some d' => rw [hd'] at h; simp at h; rw [← h]; rw [hreset _ _ hd']; exact h3
+
 /-! ## Non-vacuity -/
 
-/-- The hypotheses of `C05_reset_partial` and `C05_frame_partial_nil_mask` are satisfiable. -/
-example : Clean [["g"]] ∧ [["g"]].contains ["g"] = true ∧ (∀ t ∈ tails "g" [["g"]], t = []) ∧
-    (merge wSchema 0 ⟨none, none, some [["g"]]⟩ wStored .nil).isSome = true := by decide
-example : Clean [["f", "c"]] ∧ NoHead "g" [["f", "c"]] ∧
+/-- A schema for the examples: type 0 = {f : message 1, g : scalar}, type 1 = {c, d : scalar}. -/
+def wSchema : Schema :=
+  [[⟨"f", .message 1, 0⟩, ⟨"g", .scalar, 0⟩], [⟨"c", .scalar, 0⟩, ⟨"d", .scalar, 0⟩]]
+
+/-- stored `{f={c=1,d=2}, g=7}` -/
+def wStored : Fields :=
+  .cons "f" (.msg (.cons "c" (.sc "i1") (.cons "d" (.sc "i2") .nil))) (.cons "g" (.sc "i7") .nil)
+
+/-- `C05_rejects` applies: `g.x` continues through a scalar, `nope` is unknown, `f` is a strict
+parent of the writable `f.c`, `g` is unrelated to it. -/
+example : ¬ GoodPath wSchema 0 ["g", "x"] ∧ ¬ GoodPath wSchema 0 ["nope"] := by
+  constructor <;> (intro h; have := (validPath_iff wSchema 0 _).mpr h; revert this; decide)
+example : ¬ InsideWritable [["f", "c"]] ["f"] ∧ ¬ InsideWritable [["f", "c"]] ["g"] := by
+  constructor <;> (intro h; have := (isWritablePath_iff _ _).mpr h; revert this; decide)
+/-- …and the formerly accepted masks are rejected now, the formerly rejected duplicate accepted. -/
+example : validate wSchema 0 ⟨some [["f", "c"]], some [["f"]], none⟩ = .invalidArgument ∧
+    validate wSchema 0 ⟨some [["f", "c"], ["f", "d"]], some [["f"], ["g"]], none⟩ = .invalidArgument ∧
+    validate wSchema 0 ⟨some [["g"]], some [["g"], ["g"]], none⟩ = .ok := by decide
+/-- `C05_reset` applies with nothing writable, and to parent+child reset paths. -/
+example : (merge wSchema 0 ⟨some [], none, some [["g"]]⟩ wStored .nil).map (·.dst.get "g") = some none := by decide
+example : Clean [["f"], ["f", "c"]] ∧ NonNil [["f"], ["f", "c"]] ∧
+    (merge wSchema 0 ⟨none, none, some [["f"], ["f", "c"]]⟩ wStored wStored).map (·.dst.get "f") = some none := by decide
+/-- The hypotheses of the frame theorems hold for nested masks. -/
+example : Clean [["f", "c"]] ∧ NonNil [["f", "c"]] ∧ NoHead "g" [["f", "c"]] ∧
+    (merge wSchema 0 ⟨none, some [["f", "c"]], none⟩ wStored .nil).isSome = true ∧
     (merge wSchema 0 ⟨some [["f", "c"]], none, none⟩ wStored .nil).isSome = true := by decide
-
-
-/-- The hypotheses of `C05_frame_partial` hold for the nested update mask `{f.c}` and field `g`
-of the witness schema (and the write succeeds). -/
-example : Clean [["f", "c"]] ∧ NoHead "g" [["f", "c"]] ∧
-    (merge wSchema 0 ⟨none, some [["f", "c"]], none⟩ wStored .nil).isSome = true := by decide
-
 example : NotDisplaced wSchema 0 "g" := by
   intro n; unfold Schema.sibs; cases h : wSchema.field 0 n with
   | none => simp
@@ -297,9 +289,61 @@ example : NotDisplaced wSchema 0 "g" := by
       simp [Schema.fields, wSchema] at hm
       rcases hm with rfl | rfl <;> rfl
     simp [this]
+/-- The former witnesses now behave: `{f.c}` without `f` in the written message clears only `f.c`. -/
+example : (merge wSchema 0 ⟨none, some [["f", "c"]], none⟩ wStored (.cons "g" (.sc "i9") .nil)).map (·.dst)
+    = some (.cons "f" (.msg (.cons "d" (.sc "i2") .nil)) (.cons "g" (.sc "i7") .nil)) := by decide
 
-/-- `C05_rejects_unknown` applies: `g.x` continues through a scalar, `nope` is unknown. -/
-example : ¬ GoodPath wSchema 0 ["g", "x"] ∧ ¬ GoodPath wSchema 0 ["nope"] := by
-  constructor <;> (intro h; have := (validPath_iff wSchema 0 _).mpr h; revert this; decide)
+/-! ## The repaired defects, as witnesses over the former definitions (`Legacy.lean`) -/
+
+/-- **C05_rejects_legacy_fails** (before 4d3ae38).  Writable `{f.c, f.d}`, update mask `{f, g}`: `g` is
+related to no writable path, yet the count comparison accepted it and the write cleared the stored
+`g`.  The current `validate` rejects it (`C05_rejects`). -/
+theorem C05_rejects_legacy_fails :
+    ∃ (u : Updater) (src : Fields),
+      u.writable = some [["f", "c"], ["f", "d"]] ∧ u.update = some [["f"], ["g"]] ∧
+      Legacy.validate wSchema 0 u = .ok ∧
+      (Legacy.merge wSchema 0 u wStored src).map (·.dst.get "g") = some none ∧
+      validate wSchema 0 u = .invalidArgument :=
+  ⟨⟨some [["f", "c"], ["f", "d"]], some [["f"], ["g"]], none⟩, .cons "g" (.sc "i9") .nil,
+   rfl, rfl, by decide, by decide, by decide⟩
+
+/-- **C05_frame_legacy_fails_nested** (before 37d17a7).  Update mask `{f.c}`, written message without
+`f`: all of `f` was cleared, `f.d` included; now only `f.c` is. -/
+theorem C05_frame_legacy_fails_nested :
+    ∃ (u : Updater) (src : Fields),
+      u = ⟨none, some [["f", "c"]], none⟩ ∧ Legacy.validate wSchema 0 u = .ok ∧
+      wStored.getPath ["f", "d"] = some (.sc "i2") ∧
+      (Legacy.merge wSchema 0 u wStored src).map (·.dst.getPath ["f", "d"]) = some none ∧
+      (merge wSchema 0 u wStored src).map (·.dst.getPath ["f", "d"]) = some (some (.sc "i2")) ∧
+      (merge wSchema 0 u wStored src).map (·.dst.getPath ["f", "c"]) = some none :=
+  ⟨_, .cons "g" (.sc "i9") .nil, rfl, by decide, by decide, by decide, by decide, by decide⟩
+
+/-- **C05_frame_legacy_fails_wider** (before 4d3ae38).  Update mask `{f}` with writable `{f.c}` was
+accepted and cleared `f.d`, which is not writable; now it is rejected. -/
+theorem C05_frame_legacy_fails_wider :
+    ∃ (u : Updater) (src : Fields),
+      u = ⟨some [["f", "c"]], some [["f"]], none⟩ ∧ Legacy.validate wSchema 0 u = .ok ∧
+      (Legacy.merge wSchema 0 u wStored src).map (·.dst.getPath ["f", "d"]) = some none ∧
+      validate wSchema 0 u = .invalidArgument :=
+  ⟨_, .cons "g" (.sc "i9") .nil, rfl, by decide, by decide, by decide⟩
+
+/-- **C05_scalar_in_legacy_fails** (before 40c1599).  Update mask `{f, f.c}`: `f.d`, written as 6,
+kept its stored value 2; now the mask means `{f}` and `f.d` becomes 6. -/
+theorem C05_scalar_in_legacy_fails :
+    ∃ (u : Updater) (src : Fields),
+      u = ⟨none, some [["f"], ["f", "c"]], none⟩ ∧ Legacy.validate wSchema 0 u = .ok ∧
+      src.getPath ["f", "d"] = some (.sc "i6") ∧
+      (Legacy.merge wSchema 0 u wStored src).map (·.dst.getPath ["f", "d"]) = some (some (.sc "i2")) ∧
+      (merge wSchema 0 u wStored src).map (·.dst.getPath ["f", "d"]) = some (some (.sc "i6")) :=
+  ⟨_, .cons "f" (.msg (.cons "c" (.sc "i5") (.cons "d" (.sc "i6") .nil))) .nil,
+   rfl, by decide, by decide, by decide, by decide⟩
+
+/-- **C05_reset_legacy_fails_nothing_writable** (before 70b9b73).  With a non-nil empty writable mask
+the reset mask was skipped. -/
+theorem C05_reset_legacy_fails_nothing_writable :
+    ∃ (u : Updater), u = ⟨some [], none, some [["g"]]⟩ ∧
+      (Legacy.merge wSchema 0 u wStored .nil).map (·.dst.get "g") = some (some (.sc "i7")) ∧
+      (merge wSchema 0 u wStored .nil).map (·.dst.get "g") = some none :=
+  ⟨_, rfl, by decide, by decide⟩
 
 end ScVerif.C05
